@@ -34,6 +34,7 @@ type Semaphore struct {
 	sem          *semaphore.Weighted
 	lock         sync.Mutex
 	realCapacity int64
+	lastDone     chan struct{} // done channel of the most recent SetMaxCount call
 }
 
 // NewSem new a Semaphore
@@ -80,9 +81,17 @@ func (s *Semaphore) SetMaxCount(n int64) (done chan struct{}) {
 	s.lock.Lock()
 	old := s.realCapacity
 	s.realCapacity = n
+	prev := s.lastDone
+	s.lastDone = done
 	s.lock.Unlock()
 
 	go func() {
+		// apply the changes in call order: releasing the tokens of a later grow
+		// before an earlier shrink has acquired its tokens would let the capacity
+		// exceed every value that was ever configured.
+		if prev != nil {
+			<-prev
+		}
 		if n > old {
 			s.sem.Release(n - old)
 		} else if n < old {
